@@ -242,3 +242,72 @@ V('c05-twin-kv-delete-form', 'C05', 'C05.KV', CA,
 V('c05-twin-purge-renamed', 'C05', 'C05.PURGE', CA,
   "        expired = [record for records in self.cache.values() for record in records if record.is_expired(now)]\n        self.async_remove_records(expired)\n        return expired",
   "        gone = [rec for bucket in self.cache.values() for rec in bucket if rec.is_expired(now)]\n        self.async_remove_records(gone)\n        return gone", expect='silent')
+
+RG = '_services/registry.py'
+QHF = '_handlers/query_handler.py'
+INF = '_services/info.py'
+# ---------------------------------------------------------------- C03
+V('c03-empty-bucket-left', 'C03', 'C03.INDEX', RG,
+  "        record_list.remove(name)\n        if not record_list:\n            del records[key]", "        record_list.remove(name)")
+V('c03-remove-forgets-servers', 'C03', 'C03.INDEX', RG,
+  "            self._remove_from_index(self.servers, old_service_info.server_key, info.key)\n", "")
+V('c03-remove-type-raw', 'C03', 'C03.INDEX', RG,
+  "self._remove_from_index(self.types, old_service_info.type.lower(), info.key)", "self._remove_from_index(self.types, old_service_info.type, info.key)")
+V('c03-has-entries-stale', 'C03', 'C03.INDEX', RG,
+  "        self.has_entries = bool(self._services)", "        self.has_entries = True")
+V('c03-server-lookup-raw', 'C03', 'C03.KEYS', QHF,
+  "services = self.registry.async_get_infos_server(question_lower_name)", "services = self.registry.async_get_infos_server(name)")
+V('c03-instance-lookup-raw', 'C03', 'C03.KEYS', QHF,
+  "service = self.registry.async_get_info_name(question_lower_name)", "service = self.registry.async_get_info_name(question.name)")
+V('c03-enum-compare-raw', 'C03', 'C03.KEYS', QHF,
+  "if type_ == _TYPE_PTR and question_lower_name == _SERVICE_TYPE_ENUMERATION_NAME:", "if type_ == _TYPE_PTR and name == _SERVICE_TYPE_ENUMERATION_NAME:")
+V('c03-add-type-raw', 'C03', 'C03.KEYS', RG,
+  "self.types.setdefault(info.type.lower(), []).append(info.key)", "self.types.setdefault(info.type, []).append(info.key)")
+V('c03-any-skips-host', 'C03', 'C03.DISPATCH', QHF,
+  "        if type_ in (_TYPE_A, _TYPE_AAAA, _TYPE_ANY):", "        if type_ in (_TYPE_A, _TYPE_AAAA):")
+V('c03-nsec-answers-host', 'C03', 'C03.DISPATCH', QHF,
+  "        if type_ in (_TYPE_A, _TYPE_AAAA, _TYPE_ANY):", "        if type_ in (_TYPE_A, _TYPE_AAAA, _TYPE_ANY, _TYPE_NSEC):")
+V('c03-txt-gets-srv', 'C03', 'C03.DISPATCH', QHF,
+  "                if type_ in (_TYPE_SRV, _TYPE_ANY):\n                    strategies.append(", "                if type_ in (_TYPE_SRV, _TYPE_TXT, _TYPE_ANY):\n                    strategies.append(")
+V('c03-enum-falls-through', 'C03', 'C03.DISPATCH', QHF,
+  "                        question, _ANSWER_STRATEGY_SERVICE_TYPE_ENUMERATION, types, _EMPTY_SERVICES_LIST\n                    )\n                )\n            return strategies",
+  "                        question, _ANSWER_STRATEGY_SERVICE_TYPE_ENUMERATION, types, _EMPTY_SERVICES_LIST\n                    )\n                )")
+V('c03-text-not-suppressed', 'C03', 'C03.DISPATCH', QHF,
+  "            if not known_answers.suppresses(dns_text):\n                answer_set[dns_text] = set()", "            answer_set[dns_text] = set()")
+V('c03-txt-host-ttl', 'C03', 'C03.TTLCLASS', INF,
+  "            override_ttl if override_ttl is not None else self.other_ttl,\n            self.text,", "            override_ttl if override_ttl is not None else self.host_ttl,\n            self.text,")
+V('c03-ptr-unique', 'C03', 'C03.TTLCLASS', INF,
+  "            _TYPE_PTR,\n            _CLASS_IN,\n", "            _TYPE_PTR,\n            _CLASS_IN_UNIQUE,\n")
+V('c03-srv-shared', 'C03', 'C03.TTLCLASS', INF,
+  "            _TYPE_SRV,\n            _CLASS_IN_UNIQUE,", "            _TYPE_SRV,\n            _CLASS_IN,")
+V('c03-override-ignored-nsec', 'C03', 'C03.TTLCLASS', INF,
+  "            _CLASS_IN_UNIQUE,\n            override_ttl if override_ttl is not None else self.host_ttl,\n            self._name,\n            missing_types,",
+  "            _CLASS_IN_UNIQUE,\n            self.host_ttl,\n            self._name,\n            missing_types,")
+V('c03-memo-not-cleared-on-add', 'C03', 'C03.MEMO', RG,
+  "        info.async_clear_cache()\n", "")
+V('c03-memo-without-cacheable', 'C03', 'C03.MEMO', INF,
+  "        if cacheable:\n            self._dns_text_cache = record\n        return record", "        self._dns_text_cache = record\n        return record")
+V('c03-memo-served-to-goodbye', 'C03', 'C03.MEMO', INF,
+  "        if self._dns_service_cache is not None and cacheable:\n            return self._dns_service_cache", "        if self._dns_service_cache is not None:\n            return self._dns_service_cache")
+V('c03-clear-misses-slot', 'C03', 'C03.MEMO', INF,
+  "        self._dns_address_cache = None\n        self._dns_pointer_cache = None\n        self._dns_service_cache = None\n        self._dns_text_cache = None\n        self._get_address_and_nsec_records_cache = None\n\n    async def async_wait",
+  "        self._dns_address_cache = None\n        self._dns_pointer_cache = None\n        self._dns_service_cache = None\n        self._dns_text_cache = None\n\n    async def async_wait")
+V('c03-additional-repeats', 'C03', 'C03.ADDL', '_handlers/answers.py',
+  "            if additional not in sending:\n                out.add_additional_answer(additional)\n                sending.add(additional)", "            out.add_additional_answer(additional)\n            sending.add(additional)")
+V('c03-additional-not-recorded', 'C03', 'C03.ADDL', '_handlers/answers.py',
+  "                out.add_additional_answer(additional)\n                sending.add(additional)", "                out.add_additional_answer(additional)")
+V('c03-suppress-ge', 'C03', 'C03.SUPPRESS', '_dns.py',
+  "        return other.ttl > (record.ttl / 2)", "        return other.ttl >= (record.ttl / 2)")
+V('c03-suppress-quarter', 'C03', 'C03.SUPPRESS', '_dns.py',
+  "return self == other and other.ttl > (self.ttl / 2)", "return self == other and other.ttl > (self.ttl / 4)")
+# twins
+V('c03-twin-dispatch-elif', 'C03', 'C03.DISPATCH', QHF,
+  "        if type_ in (_TYPE_PTR, _TYPE_ANY):\n            services = self.registry.async_get_infos_type(question_lower_name)",
+  "        if type_ == _TYPE_PTR or type_ == _TYPE_ANY:\n            services = self.registry.async_get_infos_type(question_lower_name)", expect='silent')
+V('c03-twin-suppress-flipped', 'C03', 'C03.SUPPRESS', '_dns.py',
+  "        return other.ttl > (record.ttl / 2)", "        return record.ttl < 2 * other.ttl", expect='silent')
+V('c03-twin-ttl-flipped', 'C03', 'C03.TTLCLASS', INF,
+  "            override_ttl if override_ttl is not None else self.other_ttl,\n            self.text,", "            self.other_ttl if override_ttl is None else override_ttl,\n            self.text,", expect='silent')
+V('c03-twin-hygiene-inline', 'C03', 'C03.INDEX', RG,
+  "        record_list = records[key]\n        record_list.remove(name)\n        if not record_list:\n            del records[key]",
+  "        records[key].remove(name)\n        if len(records[key]) == 0:\n            records.pop(key)", expect='silent')
